@@ -12,6 +12,7 @@ mod tables;
 mod runner;
 mod pgen;
 mod c15;
+mod c02;
 
 use std::path::PathBuf;
 
@@ -72,6 +73,7 @@ fn main() {
         }
         "c01" => c01::run(&args),
         "c15" => c15::run(&args),
+        "c02" => c02::run(&args),
         "c06" => c06::run(&args),
         "c16" => c16::run(&args),
         "c10" => c10::run(&args),
